@@ -99,12 +99,12 @@ def _explore(tier: str, v: core.Verdict, out: dict):
         big = tier == "thorough"
         c1 = _cfg_with("Transform.cfg", {"Funcs = {f}": "Funcs = {f, g}"} if big else {}, d)
         c2 = _cfg_with("TransformValues.cfg", {"MaxObjs = 3": "MaxObjs = 4", "Labels = {n1, n2}": "Labels = {n1}"} if big else {}, d)
-        r1 = core.run_tlc(SPEC / "Transform.tla", c1, workers=4, timeout=1500)
+        r1 = core.run_tlc(SPEC / "Transform.tla", c1, workers=4, timeout=1500, heap="3g")
         core.require_ok(r1, "Transform.cfg")
         if r1.violated:
             raise core.MachineryError(f"Transform.cfg: design-level {r1.violated} violated\n" + "\n".join(r1.trace[-2:]))
         core.require_actions(r1, ["Load", "DoCallFresh", "DoCallSame", "DoCallValue", "DoCallRaise"], "Transform.cfg")
-        r2 = core.run_tlc(SPEC / "Transform.tla", c2, workers=4, timeout=2400)
+        r2 = core.run_tlc(SPEC / "Transform.tla", c2, workers=4, timeout=2400, heap="3g")
         core.require_ok(r2, "TransformValues.cfg")
         if r2.violated:
             raise core.MachineryError(f"TransformValues.cfg: design-level {r2.violated} violated\n" + "\n".join(r2.trace[-2:]))
@@ -114,7 +114,7 @@ def _explore(tier: str, v: core.Verdict, out: dict):
         controls = {}
         for fault, invs in expect.items():
             cb = _cfg_with("TransformBad.cfg", {'Fault = "mutate"': f'Fault = "{fault}"'}, d)
-            rb = core.run_tlc(SPEC / "Transform.tla", cb, workers=2, timeout=600, coverage=False)
+            rb = core.run_tlc(SPEC / "Transform.tla", cb, workers=2, timeout=600, coverage=False, heap="1g")
             if rb.error or rb.violated not in invs:
                 raise core.MachineryError(f"negative control {fault}: expected a violation of {sorted(invs)}, got {rb.violated} {rb.error}")
             controls[fault] = rb.violated
@@ -130,7 +130,7 @@ def _plans(tier: str, seed: int, v: core.Verdict):
     d = core.scratch("c06plans")
     funcs = "{" + ", ".join(f'"{t}"' for t in ALPHABET) + "}"
     cfg = _cfg_with("TransformPlans.cfg", {'Funcs = {"f", "g"}': f"Funcs = {funcs}"}, d)
-    res = core.run_tlc(SPEC / "Transform.tla", cfg, workers=4, timeout=900)
+    res = core.run_tlc(SPEC / "Transform.tla", cfg, workers=4, timeout=900, heap="2g")
     core.require_ok(res, "TransformPlans.cfg")
     if res.violated:
         raise core.MachineryError(f"TransformPlans.cfg: {res.violated}")
@@ -145,7 +145,7 @@ def _plans(tier: str, seed: int, v: core.Verdict):
     if tier == "thorough":
         # histories of length 3: random behaviours of the same spec (-simulate), seeded
         cfg3 = _cfg_with("TransformPlans.cfg", {'Funcs = {"f", "g"}': f"Funcs = {funcs}", "MaxObjs = 3": "MaxObjs = 4", "MaxCalls = 2": "MaxCalls = 3"}, d)
-        r3 = core.run_tlc(SPEC / "Transform.tla", cfg3, workers=4, timeout=900, simulate="num=6000", depth=5, seed=seed, coverage=False)
+        r3 = core.run_tlc(SPEC / "Transform.tla", cfg3, workers=4, timeout=900, simulate="num=6000", depth=5, seed=seed, coverage=False, heap="2g")
         if r3.error and "timed out" in r3.error:
             raise core.MachineryError("TransformPlans simulate: " + r3.error)
         lp = {json.dumps(c) for tag, c in r3.prints if tag == "CASE" and len(c) == 3}
@@ -431,7 +431,7 @@ def _validate(results, v: core.Verdict, tier: str):
         f = d / f"traces{ci}.json"
         f.write_text(json.dumps([sessions[i]["trace"] for i in chunks[ci]]))
         outs[ci] = core.run_tlc(SPEC / "TransformTrace.tla", SPEC / "TransformTrace.cfg", workers=1, timeout=3000,
-                                env={"TRACES": str(f)}, coverage=False, heap="3g")
+                                env={"TRACES": str(f)}, coverage=False, heap="2g")
 
     ths = [threading.Thread(target=run, args=(i,)) for i in range(len(chunks))]
     for t in ths:
@@ -623,7 +623,7 @@ def main(tier: str, seed: int) -> int:
         plans_emitted_by_tlc=len(plans) + len(long_plans),
         alphabet=len(ALPHABET),
         tlc_exploration=ex,
-        replay_wall_s=round(t_run, 1),
+        replay_wall_s=round(t_run, 1), session_wall_sum_s=round(sum(r.get('wall', 0) for r in results), 1),
         rule="non-trivial = distinct (start model, function, arguments) whose call returned; every session (store of real objects, all operations on it) is one trace validated by TLC",
         samples=[{"meta": s["meta"], "events": [{k: e[k] for k in e if k != "post"} for e in s["trace"]["events"][:6]]} for s in sessions[:3]],
         exhaustive=False,
